@@ -78,8 +78,9 @@ MANIFEST = {
 }
 
 H = shmsvc.shm_mod.HEADER_SIZE
-THRS = [0, 1, 8, 16, 64, 100, 4096, 131072]
-SEGS = [H + 1, H + 4000, H + 4272, H + 4400, H + 9000, H + 13000, H + 30000, 1 << 20]
+THRS = [0, 0, 1, 1, 8, 8, 16, 16, 64, 64, 100, 100, 4096, 131072]          # weighted: small thresholds route more
+SEGS = [H + 1, H + 4000, H + 4272, H + 4272, H + 4400, H + 4400, H + 9000, H + 9000, H + 13000, H + 13000, H + 30000, H + 30000,
+        1 << 20, 1 << 20, 1 << 20]
 OKINDS = ["int", "int", "dict", "zero", "mix"]
 
 
@@ -428,12 +429,10 @@ def check_one(ctx: Any, desc: dict[str, Any], script: list[list[Any]], thr: int,
             ctx.mismatch(ccase, mh, r["held"][i], f"op {i} {script[i]}: held batches (id, offset, released)")
             return
     # inputs the server's user code saw, in order
-    m_in = [x for mo in model for x in mo["srv"]]
     i_in = [[e[2], e[3]] for e in srv_seen(r["events"]) if e[0] == "input"]
     m_in_streams = [x for p in tm["plan"] if p[0] == "m" and tm["ops"][p[1]][0] == "send" for x in model[p[1]]["srv"]]
     if i_in != m_in_streams:
         ctx.mismatch(case, m_in_streams, i_in, "exchange inputs as seen by process()")
-    del m_in
 
 
 def blame(script: list[list[Any]], r: dict[str, Any], offs: list[int]) -> str:
@@ -507,7 +506,7 @@ def run(ctx: Any) -> None:
         corpus = corpus[::2] + corpus[1:6:2]
     for desc, script, thr, seg in corpus:
         check_one(ctx, desc, script, thr, seg)
-    for _ in range(ctx.budget(150, 3000)):
+    for _ in range(ctx.budget(110, 3000)):
         thr = rng.choice(THRS)
         ids = Ids()
         desc = gen_service(rng, ids, thr)
